@@ -248,6 +248,12 @@ def run_to_autough2(case, R):
     R.check((sh.get('connection') or []) == (before.get('coft') or []), 'to_autough2:short-connections', '%r expected %r' % (sh.get('connection'), before.get('coft')))
     gblocks = [b for b in (before.get('goft') or []) if any(g['block'] == b for g in gens0)]
     got = sorted(set(b for b, _n in (sh.get('generator') or [])))
+    # GOFT asks by block: every generator in a requested block gets its SHORT entry (two in one block: two entries)
+    want_pairs = sorted((g_['block'], g_['name']) for g_ in gens0 if g_['block'] in (before.get('goft') or []))
+    got_pairs = sorted((b_, n_) for b_, n_ in (sh.get('generator') or []))
+    if len(set(want_pairs)) == len(want_pairs):
+        if len(want_pairs) > len(set(b_ for b_, _n in want_pairs)): R.label('history:goft-block-with-several-generators')
+        R.check(got_pairs == want_pairs, 'to_autough2:short-generator-entries', 'SHORT generators %r; the generators in the GOFT blocks are %r' % (got_pairs, want_pairs))
     R.check(got == sorted(set(gblocks)), 'to_autough2:short-generators',
             'SHORT generators in blocks %r; GOFT requested blocks %r (of which %r hold generators)' % (got, before.get('goft'), gblocks))
     R.nontrivial(hist or bool(before.get('solver')))
